@@ -119,6 +119,8 @@ var c07Extra = []struct{ name, exit, prog string }{
 	{"tagbody.nested-inner-first", "go-fwd", "(tagbody (vtr 1) (tagbody (vtr 2) (go 7) (vtr 3) 7 (vtr 4)) (vtr 5) 7 (vtr 6))"},
 	{"block.shadow-inner-first", "ret-from", "(block vb (vtr 1) (block vb (vtr 2) (return-from vb (vtr 3)) (vtr 4)) (vtr 5))"},
 	{"block.closure-lexical-target", "ret-from", "(block vb (vtr 1) (let ((vf (lambda (vz) (return-from vb (vtr vz))))) (block vb (vtr 2) (funcall vf 3) (vtr 4)) (vtr 5)) (vtr 6))"},
+	{"return-from.value-same-block", "ret-from", "(block vb (vtr 1) (return-from vb (return-from vb (vtr 5))) (vtr 2))"},
+	{"return-from.value-same-block", "ret-nil", "(block nil (vtr 1) (return (return (vtr 5))) (vtr 2))"},
 	{"unwind-protect.nested", "ret-from", "(block vb (unwind-protect (unwind-protect (progn (vtr 1) (return-from vb (vtr 2))) (vtr 3)) (vtr 4)) (vtr 5))"},
 	{"unwind-protect.nested", "err-type", "(unwind-protect (unwind-protect (car (vtr 1)) (vtr 3)) (vtr 4))"},
 	{"unwind-protect.nested", "normal", "(unwind-protect (unwind-protect (vtr 1) (vtr 3)) (vtr 4))"},
@@ -185,6 +187,9 @@ func runC07(c *lib.Ctx) {
 	known := map[string]bool{}
 	for _, cx := range c07Ctx {
 		known[cx.name] = true
+	}
+	for _, x := range c07Extra {
+		known[x.name] = true
 	}
 	unknown := map[string]int{}
 	avoid := func(cell, exit string) bool {
